@@ -181,12 +181,17 @@ def observe(case) -> dict:
         mp.add_node_values(vals, color_map=case["cmap"], hide_colorbar=case.get("hide_colorbar", False))
     if case["added"] is not None:
         mp.add_true_path([tuple(x) for x in case["added"]])
+    objs = []
     for p in case["predicted"]:
         pts = [tuple(x) for x in p["path"]]
-        if p["form"] == "list": mp.add_predicted_path(pts)
-        elif p["form"] == "array": mp.add_predicted_path(np.array(pts, dtype=case.get("path_dtype", None)).reshape(len(pts), 2))
-        elif p["form"] == "styled_line": mp.add_predicted_path(StyledPath(path=np.array(pts).reshape(len(pts), 2), fmt=":", color="blue", quiver_kwargs=None))
-        else: mp.add_predicted_path(StyledPath(path=np.array(pts).reshape(len(pts), 2), color="green", quiver_kwargs={"width": 0.01}))
+        if p["form"] == "list": objs.append(pts)
+        elif p["form"] == "array": objs.append(np.array(pts, dtype=case.get("path_dtype", None)).reshape(len(pts), 2))
+        elif p["form"] == "styled_line": objs.append(StyledPath(path=np.array(pts).reshape(len(pts), 2), fmt=":", color="blue", quiver_kwargs=None))
+        else: objs.append(StyledPath(path=np.array(pts).reshape(len(pts), 2), color="green", quiver_kwargs={"width": 0.01}))
+    if len(objs) >= 2 and (len(objs) + case["rows"] + case["ul"]) % 2 == 0:
+        mp.add_multiple_paths(objs)              # the other public route for predicted paths: all at once
+    else:
+        for o in objs: mp.add_predicted_path(o)
     try:
         with warnings.catch_warnings():
             warnings.simplefilter("ignore")
